@@ -691,6 +691,14 @@ pub fn run(ctx: &Ctx) -> Outcome {
         per.push(json!({"scenario": s.name(), "depth": depth, "states": st.states, "transitions": st.transitions, "depth_completed": st.depth_completed, "choice_points": st.choice_points, "frontier": st.frontier_sizes}));
         total.merge(&st);
     }
+    // the Have path with a choice (borrowed from C12): record, reservation, request and completion
+    // must speak of the piece the manager chose, what is owned or announced must be stored
+    {
+        let (s, depth) = crate::c12::have_path_scenario(thorough);
+        let st = explore::bfs(ctx, &s, depth, ctx.tier.pick(50, 25));
+        per.push(json!({"scenario": Scenario::name(&s), "depth": depth, "states": st.states, "transitions": st.transitions, "depth_completed": st.depth_completed}));
+        total.merge(&st);
+    }
     // what is announced across tracker-driven reconnects exists only in the full-session world
     for (s, depth) in crate::c02::announce_scenarios() {
         let st = explore::bfs(ctx, &s, depth, ctx.tier.pick(50, 25));
@@ -769,6 +777,14 @@ pub fn replay(_ctx: &Ctx, r: &Value) -> i32 {
         };
     }
     let name = r["scenario"].as_str().unwrap();
+    if name.starts_with("resv-") {
+        for thorough in [false, true] {
+            let (s, _) = crate::c12::have_path_scenario(thorough);
+            if Scenario::name(&s) == name {
+                return explore::replay_verbose(&s, &explore::hist_from_json(&r["history"]), "C11");
+            }
+        }
+    }
     for (s, _) in crate::c02::announce_scenarios() {
         if explore::Sys::name(&s) == name {
             return explore::replay_verbose(&s, &explore::hist_from_json(&r["history"]), "C11");
